@@ -9,75 +9,75 @@ B_NOTE = "The reference model only drives the search: every transition replays t
 CHECKS = {
  "C01": dict(engine="A-choice-tree", design_ref="5/C01",
    technique="stateless exhaustive enumeration of a choice tree (deviation bounds 0,1,2 then full cartesian product), one execution of the real crate per path, identity oracle",
-   text="Every path of the (protocol x layer x key x nonce seed x message length x content class x footer x assertion) choice tree is executed on the real crate at all three API layers and must return the original message. quick: all paths with <=2 deviations from the default plus the full product over a reduced alphabet; thorough: the full product (about 830k executions) plus every length 0..=300.",
+   text="Every path of the (protocol x layer x key x nonce seed x message length x content class x footer x assertion) choice tree is executed on the real crate at all three API layers and must return the original message. quick: all paths with <=2 deviations from the default plus the full product over a reduced alphabet; thorough: the full product (about 830k executions) plus every length 0..=300. Also object-reuse histories: one builder building several tokens while reconfigured, one parser re-keyed / reconfigured between parses, the core builder used twice and with its setters in other orders - every authentic presentation must still return the message. Quick includes messages of 1 025, 4 097 and 65 537 bytes.",
    note=A_NOTE),
  "C02": dict(engine="A-choice-tree", design_ref="5/C02",
    technique="stateless exhaustive enumeration of a choice tree (deviation bounds 0,1,2 then full cartesian product), one sign+verify on the real crate per path, identity oracle",
-   text="Same explorer as C01 over the asymmetric key pools (8 Ed25519 pairs and 6 P-384 pairs whose public halves come from the independent Python reference, 3 RSA-2048 pairs): every path signs and verifies at all three layers and must return the original message.",
+   text="Same explorer as C01 over the asymmetric key pools (8 Ed25519 pairs and 6 P-384 pairs whose public halves come from the independent Python reference, 3 RSA-2048 pairs): every path signs and verifies at all three layers and must return the original message. Object-reuse histories as in C01 (second build from one builder, reconfigured parser, core builder call orders).",
    note=A_NOTE),
  "C03": dict(engine="A-choice-tree", design_ref="5/C03",
    technique="exhaustive enumeration of explicitly listed mutation neighbourhoods of authentic tokens (all single-bit flips, all single-character substitutions/insertions/deletions, all prefixes, suffix extensions, boundary shifts, splices, non-canonical base64, signature re-encodings; thorough: all bit-flip pairs), each presented to the real entry points; acceptance-predicate oracle",
-   text="For every base token (protocol x key x message x footer x assertion) every element of nine (thorough: ten) mutation families is presented to the core, generic and batteries-included entry points. Oracle R2: only the issued text, an added/removed empty trailing segment or a signature-only re-encoding may be accepted, and then the original content must come back; every other mutant must be an Err of the authentication/format class (never UTF-8/JSON/claim) with zero validator calls.",
+   text="For every base token (protocol x key x message x footer x assertion) every element of nine (thorough: ten) mutation families is presented to the core, generic and batteries-included entry points. Oracle R2: only the issued text, an added/removed empty trailing segment or a signature-only re-encoding may be accepted, and then the original content must come back; every other mutant must be an Err of the authentication/format class (never UTF-8/JSON/claim) with zero validator calls. The text-edit families use a 70-symbol alphabet (base64url, '.', '=', blank, LF, CR, TAB) plus transport decorations (Bearer prefix, BOM, quotes, trailing separators).",
    note=A_NOTE),
  "C04": dict(engine="A-choice-tree", design_ref="5/C04",
    technique="exhaustive enumeration of ordered key pairs and of all single-bit neighbours of the accepting key, each run on the real crate; acceptance-predicate oracle with positive control",
-   text="All ordered pairs of pool keys x message x footer/assertion at every layer, all single-bit neighbours of the accepting key (local: both directions), P-384 other-parity point: presenting under K' != K must fail, under K must succeed.",
+   text="All ordered pairs of pool keys x message x footer/assertion at every layer, all single-bit neighbours of the accepting key (local: both directions), P-384 other-parity point: presenting under K' != K must fail, under K must succeed. One parser object parsing the same token under the right and a wrong key in both orders; for v3.public every other key that public-key recovery yields from the token's own signature (computed by the independent reference).",
    note=A_NOTE),
  "C05": dict(engine="A-choice-tree", design_ref="5/C05",
    technique="exhaustive enumeration of all ordered (built footer, expected footer) pairs and of all single-character edits / removal / replacement / addition of the footer segment, on the real crate; iff-oracle",
-   text="For all 8 protocols x 3 layers: accept iff the expected footer equals the built one (none == empty) over all ordered pairs of a 12-element footer domain (prefixes, extensions, case changes, last-base64-character neighbours, 1 KiB, NUL and dots), the produced footer segment is exactly the unpadded base64url of F, and every edit of the footer segment is rejected.",
+   text="For all 8 protocols x 3 layers: accept iff the expected footer equals the built one (none == empty) over all ordered pairs of a 12-element footer domain (prefixes, extensions, case changes, last-base64-character neighbours, 1 KiB, NUL and dots), the produced footer segment is exactly the unpadded base64url of F, and every edit of the footer segment is rejected. Footer segment and expectation changed together (swap, strip + expect none, graft + expect it); one builder / parser reconfigured between uses; rejecting presentations are made even when the token's own control failed.",
    note=A_NOTE),
  "C06": dict(engine="A-choice-tree", design_ref="5/C06",
    technique="exhaustive enumeration of all ordered (built assertion, supplied assertion) pairs and of (footer, assertion) splits of one concatenation, on the real crate; iff-oracle plus non-storage observations",
-   text="v3/v4 x purpose x layer: accept iff the supplied assertion equals the built one over all ordered pairs of a 9-element domain and the split pairs; token length is independent of the assertion and its bytes (raw or base64) never occur in the token.",
+   text="v3/v4 x purpose x layer: accept iff the supplied assertion equals the built one over all ordered pairs of a 9-element domain and the split pairs; token length is independent of the assertion and its bytes (raw or base64) never occur in the token. One builder / parser reconfigured between uses (A1 -> A2 -> empty), second build from the same builder, core builder call orders.",
    note=A_NOTE),
  "C07": dict(engine="A-choice-tree", design_ref="5/C07",
    technique="full enumeration of the 56 ordered protocol pairs x {verbatim, header rewritten} x shared key material x layer, on the real crate",
-   text="Every ordered pair (X, Y), X != Y: a token issued by X is presented to Y's three entry points verbatim and with its header rewritten, using the same key bytes wherever both protocols accept them (32-byte symmetric keys, Ed25519 keys across v2/v4, public-key bytes as symmetric key and back). All must be rejected; X's own entry point accepts (control).",
+   text="Every ordered pair (X, Y), X != Y: a token issued by X is presented to Y's three entry points verbatim and with its header rewritten, using the same key bytes wherever both protocols accept them (32-byte symmetric keys, Ed25519 keys across v2/v4, public-key bytes as symmetric key and back). All must be rejected; X's own entry point accepts (control). Also: a token authentic for Y whose header names X presented to Y, and reference-made hybrid tokens (X's header in text and pre-authentication encoding, Y's algorithm and key).",
    note=A_NOTE),
  "C08": dict(engine="A-choice-tree", design_ref="5/C08",
    technique="exhaustive enumeration of the core-layer input space (deviation bound 2 + full product) with every case compared, in both directions, against an independent executable transcription of the PASETO specification pinned to all official vectors",
-   text="Every enumerated (protocol, key, nonce seed, message, footer, assertion) is run through the library and through R1 (pure-Python Version1-4.md + Common.md): local tokens must be byte-identical and decrypt under R1; library-signed public tokens must verify under R1 and have exactly the specification's textual shape (footer segment iff non-empty footer); R1-made tokens (incl. RFC 8032 / RFC 6979 / PSS signatures) must be accepted by the library with the original message.",
+   text="Every enumerated (protocol, key, nonce seed, message, footer, assertion) is run through the library and through R1 (pure-Python Version1-4.md + Common.md): local tokens must be byte-identical and decrypt under R1; library-signed public tokens must verify under R1 and have exactly the specification's textual shape (footer segment iff non-empty footer); R1-made tokens (incl. RFC 8032 / RFC 6979 / PSS signatures) must be accepted by the library with the original message. Tokens made by GenericBuilder / PasetoBuilder (scripted nonce) and by a re-used / differently ordered core builder are compared for the payload they carry. Quick includes 1 025, 4 097 and 65 537 byte messages.",
    note="R1 is the trusted oracle: it shares no code with the crate or its dependencies (hashlib + own AES/ChaCha/Poly1305/Ed25519/P-384/RSA-PSS), and its self-test recomputes all 53 official vectors before every run. " + A_NOTE),
  "C09": dict(engine="A-choice-tree", design_ref="5/C09",
    technique="exhaustive enumeration of structured hostile inputs (every decoded length 0..=400 behind each header, every token prefix, all strings of 0..6 segments over a 7-element alphabet, 1 MiB strings, hostile payloads, every hex length 0..=200) on all 24 entry points under catch_unwind with overflow checks",
-   text="All 24 decrypt/verify/parse entry points plus Key::<N>::try_from(&str) are called on every element of the listed input families; any panic (located by file:line) is a violation, as is a wrong-length hex key reported as success.",
+   text="All 24 decrypt/verify/parse entry points plus Key::<N>::try_from(&str) are called on every element of the listed input families; any panic (located by file:line) is a violation, as is a wrong-length hex key reported as success. Further families: a 2/3/4-byte character at every position of an authentic token, time claims at the ends of the year range, hex keys padded with white space to every length around 2N; built with debug assertions.",
    note="A panic is observed through catch_unwind with overflow-checks on; an abort (allocation failure, stack overflow) would kill the explorer and surface as a machinery error."),
  "C10": dict(engine="A-choice-tree", design_ref="5/C10",
    technique="exhaustive enumeration of builder call histories (depth 5 quick / 6 thorough) under a scripted RNG (hook H1) with a differential oracle against the core layer; plus a free-running pass that evaluates the statement's distinctness predicate on N real builds",
-   text="For v1..v4 local and both builder layers, every call history over {new builder, set same/other claims, set footer, build} and every pair of draws differing in one bit: each build consumes exactly one fresh RNG draw of the right length, the token equals the core-layer token for that draw (so, with C08, the wire nonce is the specification's function of a fresh draw) and distinct draws give distinct nonces and tokens. Free-running: N builds with identical claims under one key carry pairwise distinct nonces/tokens, no constant nonce byte. The per-bit frequency clause is computed but is sampling and auxiliary; unpredictability of the OS RNG is not decidable by this family.",
+   text="For v1..v4 local and both builder layers, every call history over {new builder, set same/other claims, set footer, build} and every pair of draws differing in one bit: each build consumes exactly one fresh RNG draw of the right length, the token equals the core-layer token for that draw (so, with C08, the wire nonce is the specification's function of a fresh draw) and distinct draws give distinct nonces and tokens. Free-running: N builds with identical claims under one key carry pairwise distinct nonces/tokens, no constant nonce byte. The per-bit frequency clause is computed but is sampling and auxiliary; unpredictability of the OS RNG is not decidable by this family. Further passes: six threads building concurrently under one key, and the first nonces of two further process lifetimes must not recur.",
    note="ring::rand::SystemRandom is trusted as a CSPRNG. The RNG tap is additive (real RNG fills the buffer first). " + A_NOTE),
  "C11": dict(engine="A-choice-tree", design_ref="5/C11-C12",
    technique="exhaustive enumeration of the RFC 3339 rendering space of instants around a frozen clock (hook H2) - every UTC offset x fractional-digit form x separator/zone form - each carried by a real token and parsed by the default parser; independent RFC 3339 reference as oracle",
-   text="v4.local: 4 frozen clocks x 16 instants (now, +-1 ns, +-1 s, +-2 s, +60 s ... 1971, 9000) x all 2 879 UTC offsets x fraction forms x {T,t,blank} x {numeric,Z,z,-00:00}; all 8 protocols: reduced rendering grid, non-timestamp exp values of every JSON type, absent claim, the 16 (exp,nbf) combinations, free-running rows with the real clock. Reject iff instant <= now (exact for strict strings, fail-closed for lenient forms), reject non-null non-timestamps, accept otherwise.",
+   text="v4.local: 4 frozen clocks x 16 instants (now, +-1 ns, +-1 s, +-2 s, +60 s ... 1971, 9000) x all 2 879 UTC offsets x fraction forms x {T,t,blank} x {numeric,Z,z,-00:00}; all 8 protocols: reduced rendering grid, non-timestamp exp values of every JSON type, absent claim, the 16 (exp,nbf) combinations, free-running rows with the real clock. Reject iff instant <= now (exact for strict strings, fail-closed for lenient forms), reject non-null non-timestamps, accept otherwise. Also: default-claim placeholder literals, an instant ladder 1971..8999, the default parser with 1-3 extra satisfied expectations, exp pinned with check_claim, one parser while the frozen clock moves across exp, real-clock rows at -1 s / +5 s.",
    note="R4 (own integer-arithmetic RFC 3339 reader) is the oracle. " + A_NOTE),
  "C12": dict(engine="A-choice-tree", design_ref="5/C11-C12",
    technique="exhaustive enumeration of the RFC 3339 rendering space of instants around a frozen clock (hook H2), each carried by a real token and parsed by the default parser; independent RFC 3339 reference as oracle",
-   text="Same space as C11 for nbf with the direction reversed: reject iff instant > now, accept iff instant < now (strict strings; either verdict at equality), reject non-null non-timestamps, accept tokens without nbf; the 16 independent (exp, nbf) combinations.",
+   text="Same space as C11 for nbf with the direction reversed: reject iff instant > now, accept iff instant < now (strict strings; either verdict at equality), reject non-null non-timestamps, accept tokens without nbf; the 16 independent (exp, nbf) combinations. Also the additions listed under C11 (moving clock, extra expectations, pinned nbf, instant ladder, tight real-clock rows).",
    note="R4 (own integer-arithmetic RFC 3339 reader) is the oracle. " + A_NOTE),
  "C13": dict(engine="B-stateright", design_ref="5/C13",
    technique="explicit-state BFS (stateright) to closure over a reference model of PasetoBuilder with every transition replayed on the real builder under a frozen clock; plus unmerged exhaustive enumeration of call sequences to depth 4 (quick) / 5 (thorough)",
-   text="All reachable states of the builder model (per key supplied 0/1/2+ times and last value, acknowledged, footer/assertion, builds 0/1/2+) under actions {set_claim(k,v), acknowledgement, set_footer(+assertion), build}; after every build of every replayed history the payload (read back at the core layer) must carry exp unless acknowledged, never carry it if acknowledged, default exp = iat + 1 h exactly and default iat = nbf = the frozen creation instant - on the first, second and later builds.",
+   text="All reachable states of the builder model (per key supplied 0/1/2+ times and last value, acknowledged, footer/assertion, builds 0/1/2+) under actions {set_claim(k,v), acknowledgement, set_footer(+assertion), build}; after every build of every replayed history the payload (read back at the core layer) must carry exp unless acknowledged, never carry it if acknowledged, default exp = iat + 1 h exactly and default iat = nbf = the frozen creation instant - on the first, second and later builds. Plus a hooks-idle pass under the real clock (iat bracketed between two clock reads, nbf = iat, exp = iat + 1 h), every frozen clock in quick, and an application-defined claim type serialising as a one-member object named exp.",
    note=B_NOTE),
  "C14": dict(engine="B-stateright", design_ref="5/C14",
    technique="explicit-state BFS (stateright) to closure over a key->value map model of GenericBuilder, every transition replayed on the real builder, built and parsed back; plus unmerged sequence enumeration",
-   text="Reachable states of the claim-map model over custom keys (quotes/newline, non-BMP, Cyrillic, blank) x a 15-element JSON value alphabet (Unicode string, empty, integers incl. u64::MAX, 1.5, bool, null, arrays, depth-5 object, native struct / Option / map) x 3 constructor forms, remove_claim and the 7 typed registered claims: the object returned by a validator-free parser must equal the model map (same key set, JSON-equal values, last write wins, removed claims absent). v4.local full alphabet; other protocols reduced alphabet.",
+   text="Reachable states of the claim-map model over custom keys (quotes/newline, non-BMP, Cyrillic, blank) x a 15-element JSON value alphabet (Unicode string, empty, integers incl. u64::MAX, 1.5, bool, null, arrays, depth-5 object, native struct / Option / map) x 3 constructor forms, remove_claim and the 7 typed registered claims: the object returned by a validator-free parser must equal the model map (same key set, JSON-equal values, last write wins, removed claims absent). v4.local full alphabet; other protocols reduced alphabet. A build follows every call of the replayed history (state left by an earlier build must not leak); the alphabet has 21 values incl. native f32, empty containers, an object named like its key and an application-defined claim type; keys incl. white-space-only and a 90-byte namespaced one.",
    note=B_NOTE),
  "C15": dict(engine="B-stateright", design_ref="5/C15",
    technique="explicit-state BFS (stateright) to closure over the parser-configuration model, every transition replayed on the real parser against a pool of tokens; plus exhaustive enumeration of the (token claim set, expected set) product and of unmerged configuration sequences",
-   text="Reachable configurations (per key: expectation none/v1/v2, validator none/accept/reject/value-dependent, built-in default validator; routes check_claim, validate_claim, extend_check_claims, extend_validation_claims) for GenericParser, PasetoParser::new() and PasetoParser::default(); with each configuration every pool token (all {absent,v1,v2} combinations, null, unauthentic ones) is parsed by one parser: Ok iff every expected claim is present, non-null and JSON-equal; missing -> missing-claim error; never Ok otherwise; first token re-parsed last must give the same outcome. Plus the full (S,E) product: 4 keys x {absent,v1,v2,null} x {not expected, v1, v2, other JSON type, changed case}.",
+   text="Reachable configurations (per key: expectation none/v1/v2, validator none/accept/reject/value-dependent, built-in default validator; routes check_claim, validate_claim, extend_check_claims, extend_validation_claims) for GenericParser, PasetoParser::new() and PasetoParser::default(); with each configuration every pool token (all {absent,v1,v2} combinations, null, unauthentic ones) is parsed by one parser: Ok iff every expected claim is present, non-null and JSON-equal; missing -> missing-claim error; never Ok otherwise; first token re-parsed last must give the same outcome. Plus the full (S,E) product: 4 keys x {absent,v1,v2,null} x {not expected, v1, v2, other JSON type, changed case}. Probe tokens are parsed after every intermediate configuration step; pool includes non-object payloads and expired / not-yet-valid tokens; null expectations, containment probes, number spellings, registrations before / after set_footer.",
    note=B_NOTE),
  "C16": dict(engine="B-stateright", design_ref="5/C16",
    technique="explicit-state BFS (stateright) to closure over the parser-configuration model with logging validators, every transition replayed on the real parser against a pool of authentic and unauthentic tokens",
-   text="Same model as C15 read for the validator clauses: on unauthentic tokens (bit flipped in tag and in content, wrong key, header, footer, assertion) the call log is empty and the error is not a claim error; on authentic tokens every logged call carries the registered key and exactly the payload's value (null when absent), no validator runs twice, Ok iff every registered validator accepts - and then each ran exactly once - else a claim error.",
+   text="Same model as C15 read for the validator clauses: on unauthentic tokens (bit flipped in tag and in content, wrong key, header, footer, assertion) the call log is empty and the error is not a claim error; on authentic tokens every logged call carries the registered key and exactly the payload's value (null when absent), no validator runs twice, Ok iff every registered validator accepts - and then each ran exactly once - else a claim error. One logging validator per (key, kind) makes re-registration observable; non-object payloads; registrations before / after set_footer and set_implicit_assertion.",
    note=B_NOTE + " The built-in default validators cannot be logged and are modelled by their documented behaviour."),
  "C17": dict(engine="B-stateright", design_ref="5/C17",
    technique="explicit-state BFS (stateright) to closure over the PasetoBuilder reference model (same model as C13) with every transition replayed on the real builder; plus unmerged exhaustive enumeration of call sequences to depth 4 / 5",
-   text="After any history in which a key was supplied twice every build returns the duplicate-claim error naming a repeated key and no token - on that and every later build (covered to closure, i.e. duplicates arbitrarily far apart and any number of later builds within the capped model); without a repeat every build succeeds and the payload equals the defaults overridden by the supplied values (minus exp if acknowledged); exp after acknowledgement may be refused or ignored.",
+   text="After any history in which a key was supplied twice every build returns the duplicate-claim error naming a repeated key and no token - on that and every later build (covered to closure, i.e. duplicates arbitrarily far apart and any number of later builds within the capped model); without a repeat every build succeeds and the payload equals the defaults overridden by the supplied values (minus exp if acknowledged); exp after acknowledgement may be refused or ignored. Model keys include the case pair a / A and the empty key; all ordered pairs of nine near-miss keys (case, white space, NFC/NFD) must be treated as distinct.",
    note=B_NOTE),
  "C18": dict(engine="A-choice-tree", design_ref="5/C18",
    technique="exhaustive enumeration of all keys of length 0..=4 over an 8-symbol alphabet plus decorated variants of the registered keys x constructor form x value type, and of the strict RFC 3339 rendering grid for the three time-claim constructors, on the real constructors",
-   text="CustomClaim construction must fail with the reserved-key error iff the key is byte-equal to one of the seven registered keys, for all three constructor forms and four value types, and otherwise keep key and value verbatim (also read back through a built token). Expiration/NotBefore/IssuedAt constructors must accept every strict RFC 3339 string of the grid (8 dates x 5 times x 13 fraction forms x 2 881 offsets) verbatim and reject every listed string that does not start with an ISO 8601 date.",
+   text="CustomClaim construction must fail with the reserved-key error iff the key is byte-equal to one of the seven registered keys, for all three constructor forms and four value types, and otherwise keep key and value verbatim (also read back through a built token). Expiration/NotBefore/IssuedAt constructors must accept every strict RFC 3339 string of the grid (8 dates x 5 times x 13 fraction forms x 2 881 offsets) verbatim and reject every listed string that does not start with an ISO 8601 date. Plus a dictionary of real-world claim names (kid, wpk, JWT vocabulary), namespaced and 300-byte keys, long non-dates with a multi-byte character at every byte offset 0..=140.",
    note="R4 decides strictness; strings that merely start with a date are unconstrained. " + A_NOTE),
  "C19": dict(engine="C-lattice", design_ref="5/C19",
    technique="exhaustive enumeration of a finite grid of generated client programs (one type substitution each, from a compiling base), type-checked against the working tree by one cargo check --keep-going; compile-table reference model",
@@ -85,7 +85,7 @@ CHECKS = {
    note="rustc 1.95 is the type-checking oracle; the grid is the quantifier's own enumeration (operation, token protocol, key protocol)."),
  "C20": dict(engine="C-lattice", design_ref="5/C20",
    technique="explicit-state enumeration of the feature-subset lattice; cargo build+run of a cfg-gated smoke client per state",
-   text="Every configuration of the stated space (quick: 8 singletons, 28 pairs, full set x 3 layers + default + none = 113; thorough: all 767) is built from /repo's working tree and its smoke client run; every enabled (protocol, layer) block must round-trip. Exhaustive over the configuration space the property quantifies over; monotonicity follows because the client source is identical in every configuration.",
+   text="Every configuration of the stated space (quick: 8 singletons, 28 pairs, full set x 3 layers + default + none = 113; thorough: all 767) is built from /repo's working tree and its smoke client run; every enabled (protocol, layer) block must round-trip. Exhaustive over the configuration space the property quantifies over; monotonicity follows because the client source is identical in every configuration. The smoke client also inspects keys, nonces and footers through AsRef / Deref (idioms whose target type must be inferred).",
    note="rustc/cargo 1.95 and the locked dependency versions are the compile oracle; 'works' is one fixed round trip per protocol and layer (input-space depth is C01/C02's job)."),
 }
 
